@@ -15,7 +15,7 @@ func init() {
 	register(&Property{
 		ID:      "C17",
 		Run:     runC17,
-		Explain: "(1) header layout, writer ↔ reader ↔ RFC 4121 §4.2.6.1/.2: the constant offsets, widths and byte order of every header field are extracted from the slice expressions and binary.BigEndian calls of WrapToken/MICToken Marshal, Unmarshal and the checksum-header builders and compared field by field (token id 05 04 / 04 04 at [0:2], flags at [2], filler FF at [3] / FF×5 at [3:8], EC [4:6] and RRC [6:8] big-endian 16, sequence number [8:16] big-endian 64, payload from 16, checksum in the last EC bytes / from 16); (2) checksum input: the buffer given to GetChecksumHash receives the payload first and then the 16-byte header into which Flags and SndSeqNum flow (EC and RRC zero for Wrap, §4.2.4), keyed by the key value, the etype of the key type and the usage parameter; (3) Verify returns true only after hmac.Equal of the whole computed and the whole presented checksum, computed by the same routine as SetChecksum; (4) decoder rejections on every path to success: short input, token id, filler, acceptor flag in both directions, EC larger than the remaining bytes; (5) key usages 22–25, flag bits 1/2/4, initiator tokens use usages 24 (seal) and 25 (sign), flags 0 and EC = GetHMACBitLength()/8. Checksum values are C07's non-claim.",
+		Explain: "(1) header layout, writer ↔ reader ↔ RFC 4121 §4.2.6.1/.2: the constant offsets, widths and byte order of every header field are extracted from the slice expressions and binary.BigEndian calls of WrapToken/MICToken Marshal, Unmarshal and the checksum-header builders and compared field by field (token id 05 04 / 04 04 at [0:2], flags at [2], filler FF at [3] / FF×5 at [3:8], EC [4:6] and RRC [6:8] big-endian 16, sequence number [8:16] big-endian 64, payload from 16, checksum in the last EC bytes / from 16); (2) checksum input: the buffer given to GetChecksumHash receives the payload first and then the 16-byte header into which Flags and SndSeqNum flow (EC and RRC zero for Wrap, §4.2.4), keyed by the key value, the etype of the key type and the usage parameter; (3) Verify returns true only after hmac.Equal of the whole computed and the whole presented checksum, computed by the same routine as SetChecksum; (4) decoder rejections on every path to success: short input, token id, filler, acceptor flag in both directions, EC larger than the remaining bytes; (5) key usages 22–25, flag bits 1/2/4, initiator tokens use usages 24 (seal) and 25 (sign), flags 0 and EC = GetHMACBitLength()/8. Checksum values are C07's non-claim. As re-built: writers and the checksum input are read as byte placements of the returned/hashed buffer (make+copy, append chains, literals, bytes.Buffer, helpers), identifier and filler bytes are folded from literals, accessor functions or read-only package arrays, decoder guards fall back to scenario evaluation, and Verify/checksum/Marshal write no byte of the token or the key.",
 		NotDecided: []string{
 			"checksum values reproduced by an independent implementation (cryptographic)",
 		},
